@@ -371,32 +371,20 @@ def fanout_cases(tier):
     return cases
 
 
-def run_fanout(chk, bindir, tier):
-    cases = fanout_cases(tier)
-    path = os.path.join(chk.work, "fanout_cases.ndjson")
-    core.write_ndjson(path, cases)
-    base = os.path.join(chk.work, "roots_fanout")
-    shutil.rmtree(base, ignore_errors=True)
-    os.makedirs(base)
-    p = core.run_cmd([os.path.join(bindir, "fsops"), "fanout", path, base], check=False, timeout=900)
-    evs = [json.loads(l) for l in p.stdout.splitlines() if l.startswith("{")]
-    shutil.rmtree(base, ignore_errors=True)
-    if p.returncode != 0 and len(evs) == len(cases):
-        raise core.ToolError("fsops fanout failed: " + p.stderr[-1500:])
-    # a crash inside a case = that case is missing
+def _judge_fanout_events(chk, evs, tag):
+    """Listing + remove_dir_all results of big / engineered directories, judged by FsTreeFanout.tla."""
+    import hashlib
     recs = []
     for k, ev in enumerate(evs):
         ch = sorted(map(tuple, ev["children"]))
         listed = ev["listed"]
-        rec = {"ev": "fanout", "id": k, "n": ev["case"]["n"], "lclass": listed["class"], "rmclass": ev["rm"]["class"],
+        rec = {"ev": "fanout", "id": k, "n": len(ch), "lclass": listed["class"], "rmclass": ev["rm"]["class"],
                "left": sorted(ev["left"]), "outside_ok": ev["outside_ok"]}
         if len(ch) <= 200:
             rec["mode"] = "full"
             rec["children"] = [list(x) for x in ch]
             rec["listed"] = listed["v"] if listed["class"] == "ok" else []
         else:
-            # summaries: count, duplicates, digest of the sorted listing, type histogram
-            import hashlib
             lv = sorted(map(tuple, listed["v"])) if listed["class"] == "ok" else []
             nodots = [x for x in lv if x[0] not in (".", "..")]
 
@@ -409,18 +397,35 @@ def run_fanout(chk, bindir, tier):
             rec["listed"] = summ(nodots)
             rec["dots"] = len(lv) - len(nodots)
         recs.append(rec)
-    tpath = os.path.join(chk.work, "fanout_trace.ndjson")
+    tpath = os.path.join(chk.work, "%s_trace.ndjson" % tag)
     core.write_ndjson(tpath, recs)
-    res = core.run_tlc("FsTreeFanout.tla", "FsTreeFanout.cfg", workers=1, env={"TRACE": tpath}, timeout=900, xmx="3g", xss="512m")
+    res = core.run_tlc("FsTreeFanout.tla", "FsTreeFanout.cfg", workers=1, env={"TRACE": tpath}, timeout=900, xmx="3g", xss="512m",
+                       metadir=os.path.join(core.WORK, "tlc-meta", "FsTreeFanout-%d-%s" % (os.getpid(), tag)))
     core.tlc_must_pass(res, "FsTreeFanout")
     j = res.printed("JUDGED")
     if len(j) != 1 or j[0]["n"] != len(recs):
         raise core.ToolError("FsTreeFanout did not judge all records: " + res.out[-1500:])
     chk.add_tlc(res)
-    chk.traces += len(recs)
+    chk.traces += len(recs) - len(j[0]["bad"])
     chk.evaluations += 2 * len(recs)
-    for i in j[0]["bad"]:
-        r, ev = recs[i - 1], evs[i - 1]
+    return recs, [i - 1 for i in j[0]["bad"]]
+
+
+def run_fanout(chk, bindir, tier):
+    cases = fanout_cases(tier)
+    path = os.path.join(chk.work, "fanout_cases.ndjson")
+    core.write_ndjson(path, cases)
+    base = os.path.join(chk.work, "roots_fanout")
+    shutil.rmtree(base, ignore_errors=True)
+    os.makedirs(base)
+    p = core.run_cmd([os.path.join(bindir, "fsops"), "fanout", path, base], check=False, timeout=900)
+    evs = [json.loads(l) for l in p.stdout.splitlines() if l.startswith("{")]
+    shutil.rmtree(base, ignore_errors=True)
+    if p.returncode != 0 and len(evs) == len(cases):
+        raise core.ToolError("fsops fanout failed: " + p.stderr[-1500:])
+    recs, bad = _judge_fanout_events(chk, evs, "fanout")
+    for i in bad:
+        r, ev = recs[i], evs[i]
         chk.violate({"op": "read_dir+remove_dir_all", "expected": "ok", "got": r["lclass"] + "/" + r["rmclass"], "detail": "fanout_" + r["mode"]},
                     "directory with %d entries (%s): listing %s / remove_dir_all %s rejected; left=%s" % (
                         r["n"], json.dumps(ev["case"]), r["lclass"], r["rmclass"], r["left"]),
@@ -431,6 +436,42 @@ def run_fanout(chk, bindir, tier):
         break
     chk.extra["fanout_cases"] = len(recs)
     chk.extra["fanout_max_entries"] = max(c["n"] for c in cases)
+    return len(recs)
+
+
+def run_dirmatrix(chk, bindir, tier):
+    """The getdents window boundary: directories engineered so that (space left in the 512-byte window after a
+    batch) x (size of the next record) sweeps every pair r in 0..288, R in 24..280 (multiples of 8, R > r).
+    The file system decides the order, so several salts are tried per pair and the pairs actually OBSERVED
+    (independent getdents64 of the observer) are reported in the evidence."""
+    cases = [{"r": r, "R": R, "tries": 8 if tier == "quick" else 16}
+             for r in range(0, 289, 8) for R in range(24, 281, 8) if R > r]
+    if tier == "quick":   # the whole band next to the diagonal and around the 256-byte line, the rest thinned
+        cases = [c for k, c in enumerate(cases) if c["R"] - c["r"] <= 32 or c["r"] >= 224 or c["R"] >= 256 or k % 4 == chk.seed % 4]
+    path = os.path.join(chk.work, "dirmatrix_cases.ndjson")
+    core.write_ndjson(path, cases)
+    base = os.path.join(chk.work, "roots_dirmatrix")
+    shutil.rmtree(base, ignore_errors=True)
+    os.makedirs(base)
+    p = core.run_cmd([os.path.join(bindir, "fsops"), "dirmatrix", path, base], check=False, timeout=900)
+    shutil.rmtree(base, ignore_errors=True)
+    if p.returncode != 0:
+        raise core.ToolError("fsops dirmatrix failed: " + p.stderr[-1500:])
+    evs = [json.loads(l) for l in p.stdout.splitlines() if l.startswith("{")]
+    recs, bad = _judge_fanout_events(chk, evs, "dirmatrix")
+    for i in bad[:20]:
+        r, ev = recs[i], evs[i]
+        lost = sorted(set(map(tuple, ev["children"])) - set(map(tuple, ev["listed"]["v"] if ev["listed"]["class"] == "ok" else [])))
+        chk.violate({"op": "read_dir+remove_dir_all", "expected": "ok", "got": r["lclass"] + "/" + r["rmclass"], "detail": "getdents_window_boundary"},
+                    "directory whose getdents batches leave/need (space_left, next_record) = %s: listing %s lost %d of %d entries (name lengths %s) / remove_dir_all %s" % (
+                        ev["pairs"], r["lclass"], len(lost), r["n"], [len(x[0]) for x in lost], r["rmclass"]),
+                    {"mode": "dirmatrix", "case": ev["case"], "pairs": ev["pairs"], "children_name_lengths": [len(c[0]) for c in ev["children"]]})
+    want = {(c["r"], c["R"]) for c in cases}
+    seen = {tuple(pr) for ev in evs for pr in ev["pairs"]}
+    chk.extra["getdents_window_matrix"] = {
+        "directories": len(evs), "pairs_targeted": len(want), "pairs_observed_of_targeted": len(want & seen), "pairs_observed_total": len(seen),
+        "not_observed": sorted(want - seen)[:20],
+        "boundary_256_pairs_observed": sorted(p for p in seen if p[0] >= 256 - 8 * 0 and p[1] > p[0] and p[0] >= 232)}
     return len(recs)
 
 
@@ -610,6 +651,7 @@ def run(tier):
             chk.evaluations += len(r) - 1
             nontrivial.add(("scale", json.dumps(p["ops"][0]["p"])[:80], len(p["tree"])))
     nf = run_fanout(chk, bindir, tier)
+    run_dirmatrix(chk, bindir, tier)
     if tier == "thorough":
         run_bigcopy(chk, bindir)
 
